@@ -163,6 +163,10 @@ static uint8_t STARTDT_CON_MSG[] = { 0x68, 0x04, 0x0b, 0x00, 0x00, 0x00 };
 static int
 writeToSocket(CS104_Connection self, uint8_t* buf, int size)
 {
+    /* not connected (never connected, connect failed or connection already closed) */
+    if (self->socket == NULL)
+        return -1;
+
     if (self->rawMessageHandler)
         self->rawMessageHandler(self->rawMessageHandlerParameter, buf, size, true);
 
